@@ -4,6 +4,7 @@ import (
 	"bytes"
 	"encoding/json"
 	"fmt"
+	"golang.org/x/text/unicode/norm"
 	"os"
 	"os/exec"
 	"path/filepath"
@@ -139,7 +140,9 @@ func c17EncodeShellVar(keys []string, value string, tag string) (string, error) 
 // c17EncodeShellDoc: a document with an earlier entry and the entry under test, through one encoder.
 // form "map": {zz: {k: first}, k: value}; form "seq": [[x, first], value] (k unused).
 func c17EncodeShellDoc(form, k, value string) (string, error) {
-	str := func(s string) *yqlib.CandidateNode { return &yqlib.CandidateNode{Kind: yqlib.ScalarNode, Tag: "!!str", Value: s} }
+	str := func(s string) *yqlib.CandidateNode {
+		return &yqlib.CandidateNode{Kind: yqlib.ScalarNode, Tag: "!!str", Value: s}
+	}
 	key := func(s string) *yqlib.CandidateNode {
 		n := str(s)
 		n.IsMapKey = true
@@ -241,7 +244,9 @@ func c17Prepare(cs c17Case) c17Item {
 	switch cs.Kind {
 	case "sh-after":
 		// the value is the second of two strings that one `@sh` application encodes (cs.Keys[0] is the first)
-		mk := func(s string) *yqlib.CandidateNode { return &yqlib.CandidateNode{Kind: yqlib.ScalarNode, Tag: "!!str", Value: s} }
+		mk := func(s string) *yqlib.CandidateNode {
+			return &yqlib.CandidateNode{Kind: yqlib.ScalarNode, Tag: "!!str", Value: s}
+		}
 		seq := &yqlib.CandidateNode{Kind: yqlib.SequenceNode, Tag: "!!seq"}
 		seq.AddChildren([]*yqlib.CandidateNode{mk(cs.Keys[0]), mk(cs.Value)})
 		res, err, pan := impl.Eval(mustParse(".[] | @sh"), seq)
@@ -356,6 +361,16 @@ func c17Run(c *fw.Ctx) error {
 			}
 		}
 	}
+	// every code point whose compatibility decomposition brings ASCII punctuation, a space or a leading digit into the name
+	// (thorough: every code point with any decomposition at all), alone and between two letters; and a command spelled in such characters
+	for _, r := range c17DecomposingRunes(c.Thorough()) {
+		cases = append(cases, c17Case{Kind: "shellvar", Keys: []string{"x" + string(r) + "y"}, Value: "v w"}, c17Case{Kind: "shellvar", Keys: []string{string(r)}, Value: "v w"})
+	}
+	for _, k := range []string{"x＄（touch　CANARY）", "＄（touch　CANARY）", "x｀touch　CANARY｀", "x；touch　CANARY；", "a⁼b", "a﹦$(touch CANARY)"} {
+		for _, v := range shellVals[:4] {
+			cases = append(cases, c17Case{Kind: "shellvar", Keys: []string{k}, Value: v}, c17Case{Kind: "shellvar", Keys: []string{"k", k}, Value: v})
+		}
+	}
 	// two strings through one application of @sh: the second must not depend on the first
 	for _, first := range []string{"x; touch CANARY #", "it's", "a'", "'", "a b", "$(touch CANARY)", "plain", "", "'a", "a\nb"} {
 		for _, v := range []string{"v", "", "a b", "x; touch CANARY #", "$(touch CANARY)", "`touch CANARY`", "it's", "'", "\"", "\\", "a\nb", "-n", "*", "~", "#x", "é", "$HOME", "a'b'c", "''"} {
@@ -460,6 +475,32 @@ func c17Run(c *fw.Ctx) error {
 		}
 	}
 	return nil
+}
+
+// c17DecomposingRunes lists the code points whose NFKD form contains an ASCII character that is not legal in a variable name
+// (all=true: every code point whose NFKD form differs from itself).
+func c17DecomposingRunes(all bool) []rune {
+	var out []rune
+	for r := rune(0x80); r <= 0x10FFFF; r++ {
+		if r >= 0xD800 && r <= 0xDFFF {
+			continue
+		}
+		d := norm.NFKD.String(string(r))
+		if d == string(r) {
+			continue
+		}
+		hazard := false
+		for i := 0; i < len(d); i++ {
+			b := d[i]
+			if b < 0x80 && !(b == '_' || b >= 'a' && b <= 'z' || b >= 'A' && b <= 'Z' || b >= '0' && b <= '9') {
+				hazard = true
+			}
+		}
+		if hazard || all {
+			out = append(out, r)
+		}
+	}
+	return out
 }
 
 func c17Sig(cs c17Case) string {
